@@ -128,6 +128,18 @@ func (g *c20gen) entry(allowBad bool) *c20entry {
 		e.spec.Checksum = ref.ChecksumOfWire(ref.Serialize(e.spec), mi.Layout.CRCExtra)
 	} else {
 		e.spec = c01random(r, c01cfg{version: version, signed: version == 2 && r.Chance(1, 4)})
+		if g.genv == nil && r.Chance(1, 5) {
+			// a tunnelled log record inside the payload: eight bytes and a complete small frame behind them (MAVLink carried in
+			// another message's payload). If the log is cut inside THIS entry, what remains of it is not an entry
+			inner := c01random(r, c01cfg{version: 1 + r.Intn(2)})
+			inner.Payload = r.Bytes(r.Intn(12))
+			p := append(r.Bytes(8), ref.Serialize(inner)...)
+			p = append(p, r.Bytes(r.Intn(40))...)
+			if len(p) > 255 {
+				p = p[:255]
+			}
+			e.spec.Payload = p
+		}
 		if g.genv != nil {
 			if mi := g.genv.layouts[e.spec.MsgID]; mi != nil {
 				// raw frame of a dialect id: give it a decodable payload and a valid checksum so that it reads back
